@@ -315,6 +315,9 @@ def from_tk(tk_circuit):
             if bit_index in tk_circuit.post_selection:
                 bras[offset] = tk_circuit.post_selection[bit_index]
                 continue  # post selection happens at the end
+            # the bit register holds the bits that are not post-selected
+            bit_index -= len([
+                i for i in tk_circuit.post_selection if i < bit_index])
             box = Measure(destructive=False, override_bits=True)
             swaps = Id(circuit.cod[:offset + 1])
             swaps = swaps @ Id.swap(
